@@ -23,6 +23,28 @@ pub struct Scenario {
     pub probe_same: bool,
 }
 
+pub fn canonical_cfg() -> SimCfg {
+    SimCfg {
+        base: 0,
+        ppm: 5000,
+        policy_delta: 1008,
+        cltv_delta: 34,
+        mpp_timeout: Duration::from_secs(60),
+        payment_timeout: Duration::from_secs(60),
+        xpay: false,
+        allow_self: true,
+        start_height: 1000,
+        fault_tier: 1,
+        max_faults: 1,
+        max_crashes: 1,
+        max_steps: 600,
+        probe: true,
+        age_pending_secs: None,
+        probe_age_secs: None,
+        probe_same_process: false,
+    }
+}
+
 pub fn canonical_plan(n_htlcs: usize, probe_aged: bool, probe_same: bool) -> impl FnOnce(&mut Rng) -> Plan {
     move |rng: &mut Rng| {
         let cfg = SimCfg {
